@@ -1,2 +1,253 @@
-/-! Stub driver root for the Angles hand model; replaced by the model's line-protocol driver. -/
-def main : IO Unit := IO.println "stub"
+import GeodeVerif.Model.Angles
+import GeodeVerif.Num.Wire
+/-!
+# Line-protocol driver for the angles hand model (`angdrv`), `Float` instance
+
+One request per line, one response per line. Numbers travel as the 16 hex digits of their
+binary64 pattern.
+
+Values on the wire
+* number `NUM <hex>`, Python int `INT <i>`, bool `BOOL 0|1`
+* objects `DEC <hex>` | `HP <hex>` | `GON <hex>` | `DMS <0|1> <deg> <min> <hex>` | `DDM <0|1> <deg> <hex>`
+* errors `ERR:ValueError`, `ERR:TypeError`, …
+* constructor arguments: `i:<int>` (Python int) or `f:<hex>` (Python float); `positive` as `T|F|N`
+
+Requests
+* `fn <name> <hex>` — a number-level function or constructor (`dec2hp`, …, `HPAngle`, `DECAngle`,
+  `GONAngle`, `dec2hp_v`, `hp2dec_v`, `dd2sec`, `angular_typecheck`)
+* `ctor DMS <pn> <pn> <pn> <T|F|N>`, `ctor DDM <pn> <pn> <T|F|N>`
+* `ctors DMS <string with _ for blanks> <T|F|N>`, `ctors DDM …`
+* `method <name> <obj> [arg]` — `rad dec deca hp hpa gon gona dms ddm __abs__ __neg__ __int__
+  __float__`; `__round__ <obj> none|<n>`; `__add__ __radd__ __sub__ __rsub__ __eq__ __ne__ __lt__
+  __gt__ <obj> <obj>`; `__mul__ __rmul__ __truediv__ __mod__ <obj> <hex>`
+* `binop add|sub|mul|div|mod <val> <val>`, `cmpop eq|ne|lt|gt <val> <val>` with
+  `<val>` = `NUM <hex>` or an object (Python operator dispatch incl. number operands)
+* `chain <hop> … <hop> : <val>` — hops are function names or `.method`; reports every
+  intermediate value separated by ` | `
+* `expr <prefix tree>` — `L <obj>` | `add E E` | `sub E E` | `neg E` | `abs E` | `mulK <hex> E` |
+  `rmulK <hex> E` | `divK <hex> E` | `modK <hex> E` | `round none|<n> E`; reports every node in
+  post-order separated by ` | `
+* `cmp eq|ne|lt|gt E ; E`
+* `lat <hp hex> <dec hex>` — every entry point on one lattice point (thorough tier)
+-/
+open Ang Py Wire
+
+abbrev Obj := AngleObj Float
+abbrev V := Val Float
+
+def wObj : Obj → String
+  | .decA x => "DEC " ++ PyF.hex x
+  | .hpA x => "HP " ++ PyF.hex x
+  | .gonA x => "GON " ++ PyF.hex x
+  | .dmsA s => s!"DMS {if s.positive then 1 else 0} {s.degree} {s.minute} {PyF.hex s.second}"
+  | .ddmA s => s!"DDM {if s.positive then 1 else 0} {s.degree} {PyF.hex s.minute}"
+
+def wVal : V → String
+  | .obj o => wObj o
+  | .num x => "NUM " ++ PyF.hex x
+  | .int i => s!"INT {i}"
+  | .bool b => if b then "BOOL 1" else "BOOL 0"
+
+def wRes {β} (f : β → String) : Except PyErr β → String
+  | .ok v => f v
+  | .error e => "ERR:" ++ e.name
+
+def wNum (r : Except PyErr Float) : String := wRes (fun x => "NUM " ++ PyF.hex x) r
+def wO (r : Except PyErr Obj) : String := wRes wObj r
+def wV (r : Except PyErr V) : String := wRes wVal r
+def wB (r : Except PyErr Bool) : String := wRes (fun b => if b then "BOOL 1" else "BOOL 0") r
+
+def pOptB (s : String) : Option Bool := if s == "T" then some true else if s == "F" then some false else none
+def pRoundN (s : String) : Option Nat := if s == "none" then none else some (pNat s)
+def pPyNum (s : String) : PyNum Float :=
+  if s.startsWith "i:" then .int ((s.drop 2).toString.toInt?.getD 0) else .flt (pNum (s.drop 2).toString)
+
+/-- parse one object from the head of a token list -/
+def pObj : List String → Option (Obj × List String)
+  | "DEC" :: x :: t => some (.decA (pNum x), t)
+  | "HP" :: x :: t => some (.hpA (pNum x), t)
+  | "GON" :: x :: t => some (.gonA (pNum x), t)
+  | "DMS" :: p :: d :: m :: s :: t =>
+    some (.dmsA { positive := p == "1", degree := pNat d, minute := pNat m, second := pNum s }, t)
+  | "DDM" :: p :: d :: m :: t =>
+    some (.ddmA { positive := p == "1", degree := pNat d, minute := pNum m }, t)
+  | _ => none
+
+def pVal : List String → Option (V × List String)
+  | "NUM" :: x :: t => some (.num (pNum x), t)
+  | ts => (pObj ts).map (fun (o, t) => (.obj o, t))
+
+def hopOfName : String → Option Hop
+  | "dec2hp" => some .dec2hp | "dec2hpa" => some .dec2hpa | "dec2gon" => some .dec2gon
+  | "dec2gona" => some .dec2gona | "dec2dms" => some .dec2dms | "dec2ddm" => some .dec2ddm
+  | "DECAngle" => some .decAngle
+  | "hp2dec" => some .hp2dec | "hp2deca" => some .hp2deca | "hp2rad" => some .hp2rad
+  | "hp2gon" => some .hp2gon | "hp2gona" => some .hp2gona | "hp2dms" => some .hp2dms
+  | "hp2ddm" => some .hp2ddm | "HPAngle" => some .hpAngle
+  | "gon2dec" => some .gon2dec | "gon2deca" => some .gon2deca | "gon2hp" => some .gon2hp
+  | "gon2hpa" => some .gon2hpa | "gon2rad" => some .gon2rad | "gon2dms" => some .gon2dms
+  | "gon2ddm" => some .gon2ddm | "GONAngle" => some .gonAngle
+  | "dec2hp_v" => some .dec2hp_v | "hp2dec_v" => some .hp2dec_v | "dd2sec" => some .dd2sec
+  | "angular_typecheck" => some .typecheck
+  | ".rad" => some .mRad | ".dec" => some .mDec | ".deca" => some .mDeca | ".hp" => some .mHp
+  | ".hpa" => some .mHpa | ".gon" => some .mGon | ".gona" => some .mGona | ".dms" => some .mDms
+  | ".ddm" => some .mDdm
+  | _ => none
+
+def doFn (name : String) (x : String) : String :=
+  match hopOfName name with
+  | some h => wV (applyHop h (.num (pNum x)))
+  | none => "BAD fn " ++ name
+
+def unaryMethod (name : String) (o : Obj) : Option String :=
+  match name with
+  | "rad" => some (wNum o.rad) | "dec" => some (wNum o.dec) | "deca" => some (wO o.deca)
+  | "hp" => some (wNum o.hp) | "hpa" => some (wO o.hpa) | "gon" => some (wNum o.gon)
+  | "gona" => some (wO o.gona) | "dms" => some (wO o.dms) | "ddm" => some (wO o.ddm)
+  | "__abs__" => some (wO o.abs) | "__neg__" => some (wO o.neg)
+  | "__int__" => some (wRes (fun i => s!"INT {i}") o.toInt)
+  | "__float__" => some (wNum o.toFloat)
+  | _ => none
+
+def doMethod (name : String) (ts : List String) : String :=
+  match pObj ts with
+  | none => "BAD obj"
+  | some (o, rest) =>
+    match unaryMethod name o with
+    | some r => r
+    | none =>
+      match name, rest with
+      | "__round__", [n] => wO (o.round (pRoundN n))
+      | "__mul__", [k] => wO (o.mul (pNum k))
+      | "__rmul__", [k] => wO (o.rmul (pNum k))
+      | "__truediv__", [k] => wO (o.truediv (pNum k))
+      | "__mod__", [k] => wV (o.mod (pNum k))
+      | _, _ =>
+        match pObj rest with
+        | some (b, []) =>
+          (match name with
+           | "__add__" => wO (o.add b) | "__radd__" => wO (o.radd b)
+           | "__sub__" => wO (o.sub b) | "__rsub__" => wO (o.rsub b)
+           | "__eq__" => wB (o.eq b) | "__ne__" => wB (o.ne b)
+           | "__lt__" => wB (o.lt b) | "__gt__" => wB (o.gt b)
+           | _ => "BAD method " ++ name)
+        | _ => "BAD method args " ++ name
+
+def pBinOp : String → Option BinOp
+  | "add" => some .add | "sub" => some .sub | "mul" => some .mul | "div" => some .div
+  | "mod" => some .mod | _ => none
+def pCmpOp : String → Option CmpOp
+  | "eq" => some .eq | "ne" => some .ne | "lt" => some .lt | "gt" => some .gt | _ => none
+
+/-- prefix expression parser (fuel = number of tokens) -/
+def pExpr : Nat → List String → Option (Expr Float × List String)
+  | 0, _ => none
+  | f + 1, ts =>
+    match ts with
+    | "L" :: t => (pObj t).map (fun (o, r) => (.leaf o, r))
+    | "add" :: t => do let (a, r) ← pExpr f t; let (b, r) ← pExpr f r; pure (.add a b, r)
+    | "sub" :: t => do let (a, r) ← pExpr f t; let (b, r) ← pExpr f r; pure (.sub a b, r)
+    | "neg" :: t => do let (a, r) ← pExpr f t; pure (.neg a, r)
+    | "abs" :: t => do let (a, r) ← pExpr f t; pure (.abs a, r)
+    | "mulK" :: k :: t => do let (a, r) ← pExpr f t; pure (.mulK a (pNum k), r)
+    | "rmulK" :: k :: t => do let (a, r) ← pExpr f t; pure (.rmulK (pNum k) a, r)
+    | "divK" :: k :: t => do let (a, r) ← pExpr f t; pure (.divK a (pNum k), r)
+    | "modK" :: k :: t => do let (a, r) ← pExpr f t; pure (.modK a (pNum k), r)
+    | "round" :: n :: t => do let (a, r) ← pExpr f t; pure (.round (pRoundN n) a, r)
+    | _ => none
+
+/-- Python stops at the first exception: report nodes up to and including the first error -/
+def traceNodes (e : Expr Float) : String :=
+  let rec go (l : List (Expr Float)) (acc : List String) : List String :=
+    match l with
+    | [] => acc.reverse
+    | s :: t =>
+      match eval s with
+      | .ok v => go t (wVal v :: acc)
+      | .error err => (("ERR:" ++ err.name) :: acc).reverse
+  " | ".intercalate (go e.subexprs [])
+
+def doChain (ts : List String) : String :=
+  let hops := ts.takeWhile (· ≠ ":")
+  let rest := (ts.dropWhile (· ≠ ":")).drop 1
+  match pVal rest, hops.mapM hopOfName with
+  | some (v, _), some hs =>
+    let rec go (hs : List Hop) (v : V) (acc : List String) : List String :=
+      match hs with
+      | [] => acc.reverse
+      | h :: t =>
+        match applyHop h v with
+        | .ok w => go t w (wVal w :: acc)
+        | .error e => (("ERR:" ++ e.name) :: acc).reverse
+    " | ".intercalate (go hs v [])
+  | _, _ => "BAD chain"
+
+/-- every entry point on one lattice point: the HP value, the decimal value -/
+def latticeAll (hp dec : Float) : String :=
+  let g := dec2gon dec
+  let dmsO : Obj := .dmsA (dec2dms dec)
+  let ddmO : Obj := .ddmA (dec2ddm dec)
+  let hpO : Obj := .hpA hp
+  let decO : Obj := .decA dec
+  let gonO : Obj := .gonA g
+  let num (x : Float) : String := PyF.hex x
+  let objs : List Obj := [decO, hpO, gonO, dmsO, ddmO]
+  let meths (o : Obj) : List String :=
+    [wNum o.rad, wNum o.dec, wO o.deca, wNum o.hp, wO o.hpa, wNum o.gon, wO o.gona, wO o.dms, wO o.ddm]
+  " | ".intercalate (
+    [ wNum (hp2dec hp), wO (hp2deca hp), wNum (hp2rad hp), wNum (hp2gon hp), wO (hp2gona hp),
+      wObj (.dmsA (hp2dms hp)), wObj (.ddmA (hp2ddm hp)), wO (mkHP hp), num (hp2dec_v1 hp),
+      num (dec2hp dec), wO (dec2hpa dec), num g, wObj (dec2gona dec), wObj dmsO, wObj ddmO,
+      num (dd2sec dec), num (dec2hp_v1 dec),
+      num (gon2dec g), wObj (gon2deca g), num (gon2hp g), wO (gon2hpa g), num (gon2rad g),
+      wObj (.dmsA (gon2dms g)), wObj (.ddmA (gon2ddm g)) ]
+    ++ (objs.map meths).flatten)
+
+def handle (toks : List String) : String :=
+  match toks with
+  | [] => "empty"
+  | ["fn", name, x] => doFn name x
+  | ["ctor", "DMS", d, m, s, p] => wObj (.dmsA (mkDMS (pPyNum d) (pPyNum m) (pPyNum s) (pOptB p)))
+  | ["ctor", "DDM", d, m, p] => wObj (.ddmA (mkDDM (pPyNum d) (pPyNum m) (pOptB p)))
+  | ["ctors", "DMS", s, p] => wO ((mkDMSstr (α := Float) (s.replace "_" " ") (pOptB p)).map .dmsA)
+  | ["ctors", "DDM", s, p] => wO ((mkDDMstr (α := Float) (s.replace "_" " ") (pOptB p)).map .ddmA)
+  | "method" :: name :: rest => doMethod name rest
+  | "binop" :: op :: rest =>
+    (match pBinOp op, pVal rest with
+     | some o, some (a, r) =>
+       (match pVal r with
+        | some (b, _) => wV (binop o a b)
+        | none => "BAD binop")
+     | _, _ => "BAD binop")
+  | "cmpop" :: op :: rest =>
+    (match pCmpOp op, pVal rest with
+     | some o, some (a, r) =>
+       (match pVal r with
+        | some (b, _) => wB (cmpop o a b)
+        | none => "BAD cmpop")
+     | _, _ => "BAD cmpop")
+  | "chain" :: rest => doChain rest
+  | "expr" :: rest =>
+    (match pExpr (rest.length + 1) rest with
+     | some (e, []) => traceNodes e
+     | _ => "BAD expr")
+  | "cmp" :: op :: rest =>
+    let l := rest.takeWhile (· ≠ ";")
+    let r := (rest.dropWhile (· ≠ ";")).drop 1
+    (match pCmpOp op, pExpr (l.length + 1) l, pExpr (r.length + 1) r with
+     | some o, some (a, []), some (b, []) => wB (evalCmp o a b)
+     | _, _, _ => "BAD cmp")
+  | ["lat", h, d] => latticeAll (pNum h) (pNum d)
+  | _ => "BAD request"
+
+partial def loop (h : IO.FS.Stream) (out : IO.FS.Stream) : IO Unit := do
+  let line ← h.getLine
+  if line.isEmpty then return ()
+  let toks := (line.trimAscii.toString.splitOn " ").filter (· ≠ "")
+  out.putStrLn (handle toks)
+  loop h out
+
+def main : IO Unit := do
+  let out ← IO.getStdout
+  loop (← IO.getStdin) out
+  out.flush
